@@ -406,7 +406,7 @@ func checkC14(r *Result, rng *rand.Rand, thorough bool) {
 			c14Call{Prog: 100000, Vers: 2, Proc: 3, Args: nil}, c14Call{Prog: 200000, Vers: 1, Proc: 0, Args: nil})
 		// rate-limited state: repeat the limited procedures so that the limiter refuses
 		if state == "ratelimit" {
-			for k := 0; k < 4; k++ {
+			for k := 0; k < 9; k++ {
 				c.Calls = append(c.Calls, c14Call{Prog: progNFS, Vers: 3, Proc: 16, Args: argReaddir(hs["/d"], 0, zeroVerf, 4096)},
 					c14Call{Prog: progNFS, Vers: 3, Proc: 17, Args: argReaddirplus(hs["/d"], 0, zeroVerf, 4096, 8192)},
 					c14Call{Prog: progNFS, Vers: 3, Proc: 6, Args: argRead(hs["/f"], 0, 100000)},
